@@ -54,7 +54,7 @@ pub enum Wire {
     /// response was lost; the client got Err
     Failed { what: &'static str },
     /// the server ticked, the response was lost and the client got Err
-    TickLost { bt: u64, has_next: bool, trades: Vec<Trade>, admitted: Vec<Order> },
+    TickLost { bt: u64, has_next: bool, trades: Vec<Trade>, admitted: Vec<Order>, clock_after: Option<i64> },
 }
 
 pub struct Shared {
@@ -75,6 +75,8 @@ pub struct Shared {
     /// injected lost tick requests / lost tick or fetch_quotes responses so far
     pub failed_ticks: Cell<u64>,
     pub lost_responses: Cell<u64>,
+    /// faults the simulator may still inject (bounded liveness is stated for "once faults stop")
+    pub fault_budget: Cell<i64>,
 }
 
 impl Shared {
@@ -92,6 +94,7 @@ impl Shared {
             failed_inserts: Cell::new(0),
             failed_ticks: Cell::new(0),
             lost_responses: Cell::new(0),
+            fault_budget: Cell::new(i64::MAX),
         })
     }
 
@@ -110,6 +113,16 @@ impl Shared {
         let i = self.mode_pos.get();
         self.mode_pos.set(i + 1);
         g[i % g.len()]
+    }
+
+    /// May one more fault be injected? (consumes one unit of the fault budget)
+    fn take_fault(&self) -> bool {
+        let b = self.fault_budget.get();
+        if b <= 0 {
+            return false;
+        }
+        self.fault_budget.set(b - 1);
+        true
     }
 
     fn spend(&self) {
@@ -215,7 +228,7 @@ impl UistClient for SimClient {
         let sh = self.sh.clone();
         self.sh.spend();
         let mode = self.sh.next_mode();
-        if mode == Delivery::TickFails {
+        if mode == Delivery::TickFails && self.sh.take_fault() {
             let sh2 = self.sh.clone();
             return SimFut::with_mode(
                 self.sh.clone(),
@@ -227,7 +240,7 @@ impl UistClient for SimClient {
                 Delivery::Lazy,
             );
         }
-        let lose_response = mode == Delivery::ResponseLost;
+        let lose_response = mode == Delivery::ResponseLost && self.sh.take_fault();
         SimFut::with_mode(
             self.sh.clone(),
             Box::new(move || {
@@ -236,7 +249,7 @@ impl UistClient for SimClient {
                     Ok(r) => {
                         if lose_response {
                             sh.lost_responses.set(sh.lost_responses.get() + 1);
-                            sh.wire.borrow_mut().push(Wire::TickLost { bt: backtest_id, has_next: r.has_next, trades: r.executed_trades.clone(), admitted: r.inserted_orders.clone() });
+                            sh.wire.borrow_mut().push(Wire::TickLost { bt: backtest_id, has_next: r.has_next, trades: r.executed_trades.clone(), admitted: r.inserted_orders.clone(), clock_after: sh.clock(backtest_id) });
                             return Err(anyhow!("injected fault: tick response lost"));
                         }
                         sh.wire.borrow_mut().push(Wire::Tick {
@@ -252,7 +265,7 @@ impl UistClient for SimClient {
                     Err(e) => Err(rej("tick", &sh, e)),
                 }
             }),
-            if lose_response { Delivery::Lazy } else { mode },
+            if lose_response || matches!(mode, Delivery::TickFails | Delivery::ResponseLost | Delivery::InsertFails) { Delivery::Lazy } else { mode },
         )
     }
 
@@ -274,7 +287,7 @@ impl UistClient for SimClient {
         let sh = self.sh.clone();
         self.sh.spend();
         let mode = self.sh.next_mode();
-        if mode == Delivery::InsertFails {
+        if mode == Delivery::InsertFails && self.sh.take_fault() {
             let sh2 = self.sh.clone();
             return SimFut::with_mode(
                 self.sh.clone(),
@@ -303,7 +316,7 @@ impl UistClient for SimClient {
         let sh = self.sh.clone();
         self.sh.spend();
         let mode = self.sh.next_mode();
-        let lose_response = mode == Delivery::ResponseLost;
+        let lose_response = mode == Delivery::ResponseLost && self.sh.take_fault();
         SimFut::with_mode(
             self.sh.clone(),
             Box::new(move || match sh.srv.fetch(backtest_id) {
@@ -320,7 +333,7 @@ impl UistClient for SimClient {
                 }
                 Err(e) => Err(rej("fetch_quotes", &sh, e)),
             }),
-            if lose_response { Delivery::Lazy } else { mode },
+            if lose_response || matches!(mode, Delivery::TickFails | Delivery::ResponseLost | Delivery::InsertFails) { Delivery::Lazy } else { mode },
         )
     }
 
